@@ -1,10 +1,13 @@
 //! One module per property; `check` dispatches.
 
+pub mod c02;
+pub mod c08;
 pub mod c11;
 pub mod c12;
 pub mod c13;
 pub mod c15;
 pub mod c17;
+pub mod common;
 
 use crate::report::Violation;
 
@@ -14,6 +17,8 @@ pub fn setup() {
 
 pub fn check(id: &str, tier: &str) -> i32 {
     match id {
+        "C02" => c02::check(tier),
+        "C08" => c08::check(tier),
         "C11" => c11::check(tier),
         "C12" => c12::check(tier),
         "C13" => c13::check(tier),
@@ -28,6 +33,7 @@ pub fn check(id: &str, tier: &str) -> i32 {
 
 pub fn replay(v: &Violation) -> i32 {
     match v.property.as_str() {
+        "C02" | "C08" | "C09" | "C10" => c02::replay(v),
         "C11" => c11::replay(v),
         "C12" => c12::replay(v),
         "C13" => c13::replay(v),
